@@ -301,7 +301,8 @@ def run(ctx):
                   "a user auto-correct file edited in the meantime is honoured (a file that is not loaded must not be remembered as seen)")
     from engine.analyses import enumerate_paths, PathLimit
     from . import roles as _roles
-    ts_fields = [n for n, t in R["fields"].items() if t == "std::time::SystemTime"]
+    # the remembered modification time: a SystemTime, or an Option of one (None = no file loaded)
+    ts_fields = [n for n, t in R["fields"].items() if t == "std::time::SystemTime" or t.replace(" ", "") == "std::option::Option<std::time::SystemTime>"]
     if len(ts_fields) != 1:
         r4.undecidable("gate", "modification-time field (SystemTime) of the phonetic method matched %s" % ts_fields)
     else:
@@ -396,6 +397,56 @@ def run(ctx):
                              site_of(ub, [bb for bb, _ in ungated if bb in ac5][0]))
             else:
                 r5.ok("gate-compare", "reload ⇐ the file's modification time differs from the stored one (%d replacing paths)" % n_assign)
+            # removed-state: on a path where the file cannot be opened and the map is kept, the reason must be that nothing was loaded —
+            # a test of the remembered state's own discriminant (Option is None) or of the map being empty; a comparison of the remembered
+            # time with a time value is a sentinel that a loaded file can have too (its entries would then survive the file's removal)
+            kept = []
+            for path, env, conds in paths5:
+                on = [bb for (bb, vals) in path]
+                if set(on) & set(ac5):
+                    continue
+                outcomes = []            # the open's result may be tested again at the end of the scope (drop flag): all tests on a feasible path agree
+                why = []
+                for (d, vals, allv, ty, sbb) in conds:
+                    if sbb not in on:
+                        continue
+                    d0 = strip_refs(d)
+                    while d0.k == "un" and d0.a[0] == "Not":
+                        d0 = strip_refs(d0.a[1])
+                    if d0.k == "discr" and strip_refs(d0.a[0]).k == "call" and strip_refs(d0.a[0]).a[0].endswith("File::open"):
+                        outcomes.append(vals == (1,) or (vals == "otherwise" and 1 not in allv and 0 in allv))
+                        continue
+                    mentions_ts = any(self_path(x) == (ts,) for x in d0.walk())
+                    mentions_map = any(self_path(x)[:2] == (R["sug_field"], R["user_autocorrect"]) for x in d0.walk() if self_path(x))
+                    if d0.k == "discr" and mentions_ts:
+                        why.append(("state", sbb))
+                    elif d0.k == "call" and mentions_ts and d0.a[0].split("::")[-1] in ("is_some", "is_none"):
+                        why.append(("state", sbb))
+                    elif d0.k == "call" and mentions_ts and d0.a[0].split("::")[-1] in ("eq", "ne", "gt", "lt", "ge", "le"):
+                        why.append(("sentinel", sbb))
+                    elif mentions_map and d0.k == "call" and d0.a[0].split("::")[-1] in ("is_empty", "len"):
+                        why.append(("state", sbb))
+                    elif mentions_ts or mentions_map:
+                        why.append(("other", sbb))
+                if outcomes and all(outcomes):
+                    kept.append((path, why))
+            if kept:
+                sent = [w for (_, why) in kept for w in why if w[0] == "sentinel" and not any(x[0] == "state" for x in why)]
+                unexplained = [pth for (pth, why) in kept if not why]
+                other = [w for (_, why) in kept for w in why if w[0] == "other" and not any(x[0] in ("state", "sentinel") for x in why)]
+                if sent:
+                    r5.violation("removed-state", "when the file cannot be opened the old entries are kept if the remembered modification time equals a fixed time value: "
+                                 "a file that really has that modification time (or none the platform can report) stays in effect after it is deleted — 'no file loaded' "
+                                 "must be a state of its own (an Option), not a time", site_of(ub, sent[0][1]))
+                elif unexplained:
+                    r5.violation("removed-state", "a path of update-engine on which the file cannot be opened keeps the map without testing whether anything was loaded",
+                                 site_of(ub, [bb for bb, _ in unexplained[0]][-1]))
+                elif other:
+                    r5.undecidable("removed-state", "cannot read the condition under which the entries are kept when the file is gone", site_of(ub, other[0][1]))
+                else:
+                    r5.ok("removed-state", "entries are kept on a failed open only when the remembered state says nothing was loaded (%d path(s))" % len(kept))
+            else:
+                r5.ok("removed-state", "every path on which the file cannot be opened replaces the map")
             opens = [s_ for s_ in ub.rblocks if ub.blocks[s_]["term"]["k"] == "switch"
                      and contains_call(strip_refs(ub.expr_operand(ub.blocks[s_]["term"]["discr"])), lambda n: n.endswith("File::open")) is not None]
             if not opens:
@@ -405,4 +456,4 @@ def run(ctx):
             else:
                 r5.violation("removed-file", "when the user auto-correct file cannot be opened update-engine keeps the old entries; a newly created context has none",
                              site_of(ub, opens[0]))
-    r5.floor(2, "gate-compare, removed-file")
+    r5.floor(3, "gate-compare, removed-state, removed-file")
